@@ -26,8 +26,11 @@ SIMPLE = {'\b': 'b', '\t': 't', '\n': 'n', '\f': 'f', '\r': 'r', '"': '"', "'": 
 SIMPLE_REV = {v: k for k, v in SIMPLE.items()}
 HEXDIGITS = '0123456789abcdefABCDEF'
 
-# name -> (escape apostrophe?, how control characters other than the simple ones are written,
-#          write the simple control characters b t n f r as hex?, escape *everything* <= FFFF?)
+# full      simple escapes for b t n f r " ' \ and \xHHHH for the other control characters
+# minimal   only " \ LF CR are escaped, everything else (TAB, U+0001, ') is written raw
+# hexshort  control characters as \x + 1..4 lower-case digits (short where unambiguous)
+# HEXSHORT  the same with \X and upper-case digits
+# hexall    every character <= U+FFFF as \xHHHH
 STYLES = ['full', 'minimal', 'hexshort', 'HEXSHORT', 'hexall']
 
 
@@ -81,7 +84,7 @@ def unit(ch, style='full', next_ch=None, quote='"'):
 
 def units(s, style='full', quote='"'):
     """escape units of s, one per character (style 'full' is also what pywbem documents)"""
-    return [unit(c, 'full' if style == 'full' else style, None, quote) for c in s]
+    return [unit(c, style, None, quote) for c in s]
 
 
 def write(s, style='full', cuts=(), sep=' ', quote='"'):
